@@ -2,6 +2,7 @@
 # usage: run_named_units.sh <unit name regexp> : runs matching units in parallel with text output into /verif/out/dev
 export GOFLAGS=-mod=mod GOPROXY=off GOSUMDB=off GOTOOLCHAIN=local
 mkdir -p /verif/out/dev
+find /verif/out/dev -type f -delete
 find ${VERIF_REPO:-/repo} -name contracts_verif.go | while read f; do
   grep -o '^//@ unit [a-z_0-9]*' $f | awk '{print $3}' | grep -E "$1" | while read u; do d=$(basename $(dirname $f)); echo "$f $u $d"; done
 done | xargs -P 10 -L 1 bash -c '/verif/bin/govc unit -file $0 -unit $1 -text -json /verif/out/dev/$2.$1.json > /verif/out/dev/$2.$1.txt 2>&1'
